@@ -36,6 +36,9 @@ struct TInner {
     generation: u64,
     dropped: bool,
     connections: usize,
+    /// poll_write calls since the harness last ran: a client that keeps writing without ever yielding would starve the harness
+    writes_since_round: usize,
+    storm: bool,
 }
 
 pub struct TStream { inner: Arc<Mutex<TInner>>, generation: u64 }
@@ -74,6 +77,8 @@ impl AsyncWrite for TStream {
     fn poll_write(self: Pin<&mut Self>, cx: &mut Context<'_>, data: &[u8]) -> Poll<std::io::Result<usize>> {
         let mut g = self.inner.lock().unwrap();
         g.activity += 1;
+        g.writes_since_round += 1;
+        if g.writes_since_round > 50_000 { g.storm = true; return Poll::Ready(Err(std::io::Error::new(std::io::ErrorKind::BrokenPipe, "write storm stopped by the harness"))); }
         let index = g.writes;
         let dev = g.plan.writes.get(&index).copied();
         let result = match dev {
@@ -142,7 +147,7 @@ async fn settle(inner: &Arc<Mutex<TInner>>, extra: &dyn Fn() -> u64) {
 async fn run(plan: Plan) -> Outcome {
     let mut out = Outcome { plan: plan.clone(), ..Default::default() };
     let inner = Arc::new(Mutex::new(TInner { available: VecDeque::new(), received: Vec::new(), reads: 0, writes: 0, flushes: 0, plan: plan.clone(), eof_now: false, read_waker: None, write_waker: None,
-        read_blocked: BTreeSet::new(), write_blocked: BTreeSet::new(), io_log: Vec::new(), activity: 0, generation: 0, dropped: false, connections: 0 }));
+        read_blocked: BTreeSet::new(), write_blocked: BTreeSet::new(), io_log: Vec::new(), activity: 0, generation: 0, dropped: false, connections: 0, writes_since_round: 0, storm: false }));
     let attempts = Arc::new(AtomicU32::new(0));
     let (factory_inner, factory_attempts, refuse) = (inner.clone(), attempts.clone(), plan.refuse.clone());
     let factory: Box<dyn Fn() -> Pin<Box<dyn Future<Output = GneissResult<TStream>> + Send>> + Send + Sync> = Box::new(move || {
@@ -221,6 +226,7 @@ async fn run(plan: Plan) -> Outcome {
             }
             broker.client_bytes(&bytes);
         }
+        { let mut g = inner.lock().unwrap(); g.writes_since_round = 0; if g.storm { drop(g); out.problem("client-writes-without-bound", "more than 50000 write calls without the client task ever yielding: the write loop does not terminate (the transport accepted every call)"); break; } }
         // garbage on the transport: nothing sensible can follow, the oracles below report it
         if broker.malformed.is_some() { break; }
         if connections > connections_seen {
